@@ -614,6 +614,26 @@ def growth_battery(seed=0, hints=()):
         w = native_growth(cls, make)
         if w.get('reproduced'):
             return w
+    from cryptoparser.tls.extension import TlsExtensionsClient
+
+    def ext_block(n, kind):
+        if kind == 'key_share':
+            entries = b''.join((0x4000 + i).to_bytes(2, 'big') + b'\x00\x01\xaa' for i in range(max(1, n // 5)))
+            body = len(entries).to_bytes(2, 'big') + entries
+            ext = b'\x00\x33' + len(body).to_bytes(2, 'big') + body
+        elif kind == 'alpn':
+            names = b''.join(b'\x02' + bytes([0x61 + i % 26, 0x61 + (i // 26) % 26]) for i in range(max(1, n // 3)))
+            body = len(names).to_bytes(2, 'big') + names
+            ext = b'\x00\x10' + len(body).to_bytes(2, 'big') + body
+        else:
+            algs = b''.join((0x0900 + i % 200).to_bytes(2, 'big') for i in range(max(1, n // 2)))
+            body = len(algs).to_bytes(2, 'big') + algs
+            ext = b'\x00\x0d' + len(body).to_bytes(2, 'big') + body
+        return len(ext).to_bytes(2, 'big') + ext
+    for kind in ('key_share', 'alpn', 'signature_algorithms'):
+        w = native_growth(TlsExtensionsClient, lambda n, kind=kind: ext_block(n, kind))
+        if w.get('reproduced'):
+            return w
     for f in (search_derived, search_dns, search_x509, search_text_scan):
         w = f(seed)
         if w.get('reproduced'):
